@@ -6,15 +6,36 @@ From Sci Require Import Gen.NetworkTables Network.Model Network.Spec Network.Pro
 Local Open Scope N_scope.
 
 (** The code that extends a beacon ([SignedPathSegment::add_entry] = [AsEntry::update_macs]
-    then push), iterated over any list of AS entries, builds exactly the specification's
-    segment: sigma_i over beta_i, beta_(i+1) = beta_i xor sigma_i[0..2], peer entries over
-    beta_(i+1).  The flag is regenerated from segment.rs: with the unrepaired helper (peer
-    entries over beta_i) this proof does not go through. *)
+    then push, modelled AS WRITTEN; which beta the peer entries are MACed over is a flag
+    regenerated from segment.rs), iterated over any list of AS entries WITHOUT peer entries,
+    builds exactly the specification's segment: sigma_i over beta_i, beta_(i+1) = beta_i xor
+    sigma_i[0..2].  Outside this class the sentence is false of the code:
+    [Findings.update_macs_peer_beta_refuted] (open finding C01-peer-mac-over-beta-i: peer
+    entries are MACed over beta_i, the specification says beta_(i+1)). *)
 Theorem update_macs_builds_beacon :
   forall (key : Type) (mac : key -> N -> N -> N -> N -> N -> N) b0 ts (us : list (@uentry key)),
+    has_peer_entries us = false ->
     code_beacon mac b0 ts us = beacon mac b0 ts us.
-Proof. intros. apply code_beacon_is_beacon. reflexivity. Qed.
+Proof. intros. apply code_beacon_is_beacon. assumption. Qed.
 Print Assumptions update_macs_builds_beacon.
+
+(** With peer entries, too, the AS sequence and every REGULAR hop field of a code-built
+    segment are the specification's (only peer-entry MACs deviate), so every use of a
+    code-built segment that does not go through a peer entry -- all non-peering paths -- is
+    literally the use of the specification's beacon: same hop fields, same initial SegID.
+    The delivery theorems below therefore apply to code-built segments as they are; the
+    peering theorems ([peering_path_delivers], [peer_uses_are_authentic]) are stated for
+    specification beacons only. *)
+Theorem update_macs_regular_hops_agree :
+  forall (key : Type) (mac : key -> N -> N -> N -> N -> N -> N) b0 ts (us : list (@uentry key)) k cons,
+    (map se_hop (sg_entries (code_beacon mac b0 ts us)) = map se_hop (sg_entries (beacon mac b0 ts us))
+     /\ map se_ia (sg_entries (code_beacon mac b0 ts us)) = map se_ia (sg_entries (beacon mac b0 ts us)))
+    /\ use_hops (mkUse (code_beacon mac b0 ts us) k None cons) = use_hops (mkUse (beacon mac b0 ts us) k None cons)
+    /\ use_info (mkUse (code_beacon mac b0 ts us) k None cons) = use_info (mkUse (beacon mac b0 ts us) k None cons).
+Proof.
+  intros. split; [rewrite code_beacon_entries; apply code_entries_hops|apply nonpeer_use_code_eq].
+Qed.
+Print Assumptions update_macs_regular_hops_agree.
 
 (** The chain invariant.  For every beaconed segment (any length), every use of it in a path
     ([SolutionEdge]: from any shortcut index [k], through the regular hop field of entry [k]
@@ -97,7 +118,9 @@ Theorem assembled_paths_are_authentic :
 Proof. intros. apply route_auth_of; assumption. Qed.
 Print Assumptions assembled_paths_are_authentic.
 
-(** Peering paths.  Two segments carrying the PEERING flag: the first travelled against
+(** Peering paths (segments as the SPECIFICATION beacons them; segments built by the code as
+    written carry deviating peer-entry MACs, finding C01-peer-mac-over-beta-i).
+    Two segments carrying the PEERING flag: the first travelled against
     construction direction and ending in a peering hop field, the second in construction
     direction and starting with one (the shape [PathSolution::path] gives every peering path;
     either segment may consist of its peering hop field alone).  If every hop field is
@@ -126,7 +149,7 @@ Theorem peering_path_delivers :
 Proof. intros. apply peering_delivers; assumption. Qed.
 Print Assumptions peering_path_delivers.
 
-(** ... and the uses of beaconed segments through a peer entry are exactly such
+(** ... and the uses of SPECIFICATION-beaconed segments through a peer entry are exactly such
     descriptions: by the chain invariant every hop field of the use (regular ones and the
     peer entry's) is authentic over the carried value, with the SegID initialised as
     [initialize_segment_id] does (beta_(k+1) for a peer entry of entry k). *)
